@@ -19,7 +19,8 @@ Judge(L) ==
   ELSE IF L.outcome # "OK" THEN "outcome_" \o L.outcome
   ELSE IF ~L.keyset_ok THEN "order_keys_differ_between_terms"
   ELSE IF L.nkeys < 1 THEN "no_order_keys"
-  ELSE IF L.resid_milli > 1000 THEN "relation_violated_by_code"
+  ELSE IF L.resid_milli > 1000 THEN "relation_violated_by_code"          \* (over the order keys whose entries are finite)
+  ELSE IF ~L.finite THEN "non_finite_entries"
   ELSE "ok"
 VARIABLE l
 Init == l = 1
